@@ -89,6 +89,25 @@ def regenerate_facts(log):
     return None
 
 
+def import_closure(roots):
+    """source files of the Vegeta/Drv modules transitively imported by the given modules"""
+    seen, todo, files = set(), list(roots), []
+    while todo:
+        m = todo.pop()
+        if m in seen:
+            continue
+        seen.add(m)
+        f = os.path.join(LEAN, *m.split(".")) + ".lean"
+        if not os.path.exists(f):
+            continue
+        files.append(f)
+        for line in open(f, encoding="utf-8"):
+            mm = re.match(r"\s*(?:public\s+)?import\s+((?:Vegeta|Drv)\.[\w.]+)", line)
+            if mm:
+                todo.append(mm.group(1))
+    return files
+
+
 def lean_obligations(prop, tier, log):
     """returns (obligations, discharged, failures[list of str], theorem->axioms)"""
     failures = []
@@ -129,15 +148,27 @@ def lean_obligations(prop, tier, log):
         full = f"Vegeta.Props.{prop}.{t}"
         if full not in thms:
             failures.append(f"required theorem {full} is missing")
-    # hygiene grep
-    rc, out, dt = sh(["grep", "-rnE", r"sorry|admit|^axiom |native_decide|bv_decide|implemented_by|unsafe |maxHeartbeats 0",
-                      "--include=*.lean", "Vegeta", "Drv"], cwd=LEAN)
+    # hygiene grep over the import closure of the property's theorems and driver
     hits = []
-    for l in out.splitlines():
-        body = l.split(":", 2)[-1]
-        code = body.split("--")[0]
-        if re.search(r"sorry|admit|^axiom |native_decide|bv_decide|implemented_by|unsafe |maxHeartbeats 0", code):
-            hits.append(l)
+    pat = re.compile(r"sorry|admit|^axiom |native_decide|bv_decide|implemented_by|unsafe |maxHeartbeats 0")
+    for f in import_closure([f"Vegeta.Props.{prop}", f"Drv.{prop}"]):
+        in_block = 0
+        for ln, line in enumerate(open(f, encoding="utf-8"), 1):
+            # strip block comments (/- … -/, possibly nested) and line comments
+            code = ""
+            i = 0
+            while i < len(line):
+                if line.startswith("/-", i):
+                    in_block += 1; i += 2; continue
+                if line.startswith("-/", i) and in_block:
+                    in_block -= 1; i += 2; continue
+                if not in_block:
+                    if line.startswith("--", i):
+                        break
+                    code += line[i]
+                i += 1
+            if pat.search(code):
+                hits.append(f"{os.path.relpath(f, LEAN)}:{ln}: {line.strip()[:120]}")
     if hits:
         failures.append("hygiene grep hits: " + " | ".join(hits[:5]))
     if tier == "thorough":
